@@ -45,7 +45,19 @@ def injections(rng):
     base = mm(rng, names)
     bad = copy.deepcopy(base)
     bad["einsum"]["expressions"] = [base["einsum"]["expressions"][0].replace("B[", "Q[")]
-    yield ("undeclared-tensor", base, bad, "plain", None, None)
+    yield ("undeclared-tensor", base, bad, "plain", {"op": "legality", "kind": "undeclared", "declared": sorted(base["einsum"]["declaration"]), "used": ["Z", "A", "Q"]},
+           {"op": "legality", "kind": "undeclared", "declared": sorted(base["einsum"]["declaration"]), "used": ["Z", "A", "B"]})
+    # the undeclared tensor as output, as first factor, and in a later Einsum of a cascade
+    bad = copy.deepcopy(base)
+    bad["einsum"]["expressions"] = [base["einsum"]["expressions"][0].replace("A[", "Q[")]
+    yield ("undeclared-tensor", base, bad, "plain", {"op": "legality", "kind": "undeclared", "declared": sorted(base["einsum"]["declaration"]), "used": ["Z", "Q", "B"]}, None)
+    bad = copy.deepcopy(base)
+    bad["einsum"]["expressions"] = [base["einsum"]["expressions"][0].replace("Z[", "Q[")]
+    yield ("undeclared-tensor", base, bad, "plain", {"op": "legality", "kind": "undeclared", "declared": sorted(base["einsum"]["declaration"]), "used": ["Q", "A", "B"]}, None)
+    bad = copy.deepcopy(base)
+    bad["einsum"]["declaration"]["Y"] = list(base["einsum"]["declaration"]["Z"])
+    bad["einsum"]["expressions"] = [base["einsum"]["expressions"][0], "Y[%s, %s] = Z[%s, %s] * Q[%s]" % (m, n, m, n, m)]
+    yield ("undeclared-tensor", base, bad, "plain", {"op": "legality", "kind": "undeclared", "declared": sorted(bad["einsum"]["declaration"]), "used": ["Y", "Z", "Q"]}, None)
     bad = copy.deepcopy(base)
     bad["einsum"]["expressions"] = ["Z[%s, %s] = A[%s, %s] * A[%s, %s]" % (m, n, k, m, k, m)]
     yield ("repeated-tensor", base, bad, "plain", {"op": "legality", "kind": "dup", "ranks": ["A", "A"]}, {"op": "legality", "kind": "dup", "ranks": ["A", "B"]})
@@ -148,7 +160,9 @@ def injections(rng):
         for ein in list(d["bindings"].keys()):
             bad = copy.deepcopy(d)
             bad["bindings"][ein] = [b for b in bad["bindings"][ein] if "config" not in b]
-            yield ("einsum-without-config", d, bad, "metrics", None, None)
+            flags = lambda dd: [[("config" in b) for b in dd["bindings"][e2]] for e2 in dd["bindings"]]
+            yield ("einsum-without-config", d, bad, "metrics", {"op": "legality", "kind": "config", "einsums": flags(bad)},
+                   {"op": "legality", "kind": "config", "einsums": flags(d)})
 
 
 def entry_orders(rule, base, bad, mode, req_bad, req_base):
